@@ -1,5 +1,5 @@
 ------------------------------ MODULE MCSched ------------------------------
-EXTENDS Sched
+EXTENDS Sched, Json, TLCExt, SequencesExt
 \* directory layouts used by the configurations
 NoDirFiles == <<>>
 NoDirSubs  == <<>>
@@ -10,4 +10,35 @@ AllFail == {"none", "pre", "post"}
 NoFail == {"none"}
 BuildOnly == {"build"}
 BuildClean == {"build", "clean"}
+
+Sum(f) == LET RECURSIVE S2(_) S2(T) == IF T = {} THEN 0 ELSE LET x == CHOOSE x \in T : TRUE IN f[x] + S2(T \ {x}) IN S2(DOMAIN f)
+\* one random scenario per TLC process (simulation mode draws its behaviours from it)
+SimInit ==
+  /\ deps = [f \in Files |-> IF RandomElement(1..6) = 1
+                                THEN RandomElement({{f}, {1}})     \* now and then a self-include or a back edge
+                                ELSE RandomElement({S \in SUBSET {g \in Files : g > f} : Cardinality(S) <= 2})]
+  /\ failAt = [f \in Files |-> "none"]
+  /\ inputs = RandomElement(SeqsUpTo(InputItems, MaxInputs) \ {<<>>})
+  /\ recursive = FALSE /\ mode = "build"
+  /\ pc = "spawn"
+  /\ todo = [i \in 1..Len(inputs) |-> <<"file", inputs[i][2], TRUE>>]
+  /\ seen = {} /\ done = 0 /\ total = 0
+  /\ queue = <<>> /\ working = {} /\ running = {} /\ chan = <<>>
+  /\ outCnt = [f \in Files |-> 0] /\ inEdges = [f \in Files |-> {}] /\ finished = {}
+  /\ verdict = "none"
+  /\ disk = [f \in Files |-> "old"] /\ finals = [f \in Files |-> 0]
+  /\ cmdRuns = [f \in Files |-> 0] /\ badRead = {}
+SimSpec == SimInit /\ [][Next]_vars
+
+\* S->I replay: in simulation mode every finished behaviour is printed as the sequence of its states; the
+\* harness turns it into a schedule for the real coordinator (lib/sched_engine.py: replay_behaviours)
+EmitBehaviour == pc = "returned" =>
+   PrintT(<<"BEHAVIOUR", ToJson([i \in 1..Len(Trace) |->
+        [deps |-> Trace[i].deps, failAt |-> Trace[i].failAt, inputs |-> Trace[i].inputs, recursive |-> Trace[i].recursive,
+         mode |-> Trace[i].mode, pc |-> Trace[i].pc, ntodo |-> Len(Trace[i].todo), seen |-> Cardinality(Trace[i].seen),
+         total |-> Trace[i].total, done |-> Trace[i].done, queue |-> Trace[i].queue,
+         working |-> SetToSeq(Trace[i].working), running |-> SetToSeq(Trace[i].running), chan |-> Trace[i].chan,
+         edges |-> Sum([f \in Files |-> Cardinality(Trace[i].inEdges[f])]), counts |-> Sum(Trace[i].outCnt),
+         fin |-> Cardinality(Trace[i].finished), verdict |-> Trace[i].verdict, finals |-> Trace[i].finals,
+         cmdRuns |-> Trace[i].cmdRuns, disk |-> Trace[i].disk]])>>)
 =============================================================================
